@@ -741,7 +741,8 @@ def predrawn_layout(comments=0, comment_strategy=None, nbytes=900):
 @st.composite
 def script(draw, min_statements=1, max_statements=4, comments=10, stmt=None, last_semi=None, go=False, assign=False, **lay):
     """-> laid-out lexeme list (with marks) of k statements separated by ';' lexemes (go=True: some separators are
-    followed by a GO batch-separator keyword, which ends a batch just like the ';' before it ended the statement)"""
+    followed by a GO batch-separator keyword, which ends a batch just like the ';' before it ended the statement, and some
+    statements are ended by GO alone)"""
     k = draw(st.integers(min_statements, max_statements))
     raw, pool = draw(predrawn_layout(comments, lay.get('comment_strategy')))
     flags = draw(st.lists(st.integers(0, 5), min_size=k + 1, max_size=k + 1))
@@ -750,6 +751,10 @@ def script(draw, min_statements=1, max_statements=4, comments=10, stmt=None, las
     for i, s in enumerate(stmts):
         lex.extend(s)
         if i < k - 1 or ((flags[k] % 2 == 1) if last_semi is None else last_semi):
+            if go and flags[i] % 3 == 1:
+                # a batch ended by GO alone, without any semicolon
+                lex.append(L('kw', 'GO', False, go=True))
+                continue
             lex.append(list(SEMI))
             if go and flags[i] % 3 == 0:
                 lex.append(L('kw', 'GO', False, go=True))
